@@ -261,13 +261,14 @@ theorem linearizable_valid_points (hr : r ∈ unconditionalCurves) :
     (∀ id, (E.info id).generator = true → ∃ o, Curve.truthy (E.info id).order = some o ∧ 0 < o ∧
       Curve.precomputeTable (mkPJ (E.info id) (E.c0 id)) = .ok (E.tF id)) →
     (∀ id, (E.info id).generator = false → E.tF id = []) →
-    ∀ (full : Nat → Bool) (ops : List Op) (sched : List Nat),
-    (∀ k, E.good k ((run E.canon (initCfg E full ops) sched).heap k)) ∧
+    ∀ (full : Nat → Bool) (ptr0 : Nat → Nat), (∀ kid, E.targets kid (ptr0 kid)) → ∀ (ops : List Op),
+    (∀ op ∈ ops, op.wf E) → ∀ (sched : List Nat),
+    (∀ k, E.good k ((run E.canon (initCfg E full ptr0 ops) sched).heap k)) ∧
     (∀ (j : Nat) (op : Op) (t : Thread Cell Val (Res Out)) (r' : Res Out), ops[j]? = some op →
-        (run E.canon (initCfg E full ops) sched).thr[j]? = some t → t.prog = .ret r' → op.acc E r') := by
+        (run E.canon (initCfg E full ptr0 ops) sched).thr[j]? = some t → t.prog = .ret r' → op.acc E r') := by
   haveI := factP hr
-  intro E g hP hS hgen hnogen full ops sched
-  exact C18.linearizable_valid_points_partial (baseCtx r (checked_of_mem (mem_table hr))).n2t E g hP hS hgen hnogen full ops sched
+  intro E g hP hS hgen hnogen full ptr0 hp0 ops hwf sched
+  exact C18.linearizable_valid_points_partial (baseCtx r (checked_of_mem (mem_table hr))).n2t E g hP hS hgen hnogen full ptr0 hp0 ops hwf sched
 
 end
 
